@@ -50,13 +50,41 @@ def transforms(rng, p, r):
     return out
 
 
+def competing(rng):
+    """semantic masks where one prediction component bridges two reference components with DIFFERENT overlaps (and vice versa):
+    the matching is unique, but only if candidates are visited best-first -- scan order must not matter"""
+    h, w = rng.randint(2, 4), rng.randint(14, 22)
+    ref = np.zeros((h, w), np.uint8); pred = np.zeros((h, w), np.uint8)
+    a = rng.randint(1, 3); la = rng.randint(3, 5); gap = rng.randint(1, 2); lb = rng.randint(2, 6)
+    while lb == la:
+        lb = rng.randint(2, 6)
+    ref[0, a:a + la] = 1
+    ref[0, a + la + gap:a + la + gap + lb] = 1
+    pred[0, a + rng.randint(0, 1):a + la + gap + lb - rng.randint(0, 1)] = 1      # bridges both references
+    if h > 2 and rng.random() < 0.5:
+        ref[2, 1:4] = 1; pred[2, 2:5] = 1
+    if rng.random() < 0.5:
+        pred, ref = ref, pred
+    if rng.random() < 0.5:
+        pred, ref = pred.T.copy(), ref.T.copy()
+    return pred, ref
+
+
 def run(ctx):
     common.serial_pool()
     rng = ctx.rng
-    for _ in range(ctx.scale(130, 1200)):
+    n_main = ctx.scale(130, 1200)
+    for it_no in range(n_main + ctx.scale(60, 400)):
         it = rng.choice(["matched", "unmatched", "unmatched", "semantic"])
         p, r = impl.rand_pair(rng, max_side=6, max_inst=3)
         cfg = gen_cfg(rng, it)
+        if it_no >= n_main:
+            it = "semantic"
+            p, r = competing(rng)
+            cfg = gen_cfg(rng, it)
+            cfg["matcher"], cfg["m2o"] = "naive", rng.random() < 0.3
+            cfg["mmetric"] = rng.choice(["IOU", "DSC"])
+            cfg["mthr"] = rng.choice([0.05, 0.1, 0.2, 0.3])
         if it == "semantic":
             p, r = (p != 0).astype("uint8"), (r != 0).astype("uint8")
             if cfg.get("backend") is None:
